@@ -22,7 +22,7 @@ func C14(r *core.Run) {
 		"(R14.3) whenever a listing is marked truncated the continuation markers are set on the same path, from the entry where it stopped; " +
 		"(R14.4) the upload map and the per-key index are updated in step (add/remove write both, nobody else writes, the index never keeps an empty slice); " +
 		"(R14.5) listed uploads come from the index entry of the iterated key, filtered by the prefix match, counted against the limit; " +
-		"(L2) every access to uploader state holds uploader.mu; (R14.6) max-uploads / max-parts / part-number-marker are clamped from the query and passed on. (R14.8) a remaining key grouped under an unreported common prefix keeps an upload listing truncated. (R14.9) bucket entries of the uploader are not removed while a missing entry lists as an error. (R14.10) ListParts appends only below the max-parts bound, counts every listed part, and resumes from the part listed last. (paging elements) the continuation markers are serialised under the element names the protocol defines."
+		"(L2) every access to uploader state holds uploader.mu; (R14.6) max-uploads / max-parts / part-number-marker are clamped from the query and passed on. (R14.8) a remaining key grouped under an unreported common prefix keeps an upload listing truncated. (R14.9) bucket entries of the uploader are not removed while a missing entry lists as an error. (R14.10) ListParts appends only below the max-parts bound, counts every listed part, and resumes from the part listed last. (paging elements) the continuation markers are serialised under the element names the protocol defines. (R14.12) ListMultipartUploads seeks to the marker, names the upload after the last listed one, reports truncated whenever it stored markers, stores them once, and lists nothing that failed the prefix match."
 	r.NotDecided = "exactly-once across pages for uploads, prefix grouping semantics, order by initiation time (append order is relied upon)"
 	ctx := oblig.NewCtx(r.P)
 	installNonNilHook(r, ctx)
@@ -46,6 +46,7 @@ func C14(r *core.Run) {
 	rule148(r)
 	rule149(r)
 	rule1410(r)
+	rule1412(r)
 	rulePagingElements(r, "R14.11", "ListMultipartUploadsResult", "ListMultipartUploadPartsResult")
 	// L2 restricted to uploader state
 	a := newLockset(r)
@@ -839,4 +840,175 @@ func phiClosure(ph *ssa.Phi) []ssa.Value {
 		}
 	}
 	return out
+}
+
+// rule1412 — ListMultipartUploads resumes at the marker and stops exactly once.
+func rule1412(r *core.Run) {
+	r.Rule("R14.12", "uploader.ListMultipartUploads: (a) with a marker the index iterator is positioned with Seek(marker.Object) before the listing loop advances it; (b) a page that stops inside a key's uploads names the upload AFTER the one listed last (index+1 of the same slice) as NextUploadIDMarker; (c) on every path from a store of NextKeyMarker to the final store of IsTruncated the stored flag is true; (d) once the continuation markers are stored no later store to them is reachable (the look-ahead runs only when the page did not stop inside a key, and stops at the first remaining key); (e) no marker store and no listed entry is reachable from a prefix match that failed without another match in between")
+	fn := mustFunc(r, "gofakes3.(*uploader).ListMultipartUploads")
+	if fn == nil {
+		return
+	}
+	name := fname(r, fn)
+	p0 := r.P.Pos(fn.Pos())
+	var seek *ssa.Call
+	var nexts, matches []*ssa.Call
+	core.Instrs(fn, func(in ssa.Instruction) {
+		c, ok := in.(*ssa.Call)
+		if !ok {
+			return
+		}
+		switch r.P.CalleeName(c) {
+		case "goskipiter.(*Iterator).Seek":
+			if len(c.Call.Args) > 1 && isLoadOf(r, core.Forward(stripIface(c.Call.Args[1])), "gofakes3.UploadListMarker.Object") {
+				seek = c
+			}
+		case "goskipiter.(*Iterator).Next":
+			nexts = append(nexts, c)
+		case "gofakes3.(Prefix).Match":
+			matches = append(matches, c)
+		}
+	})
+	// (a)
+	if seek == nil {
+		r.Violated("R14.12", key(name, "Seek(marker.Object)"), p0, "the index iterator is never positioned at marker.Object: a continued upload listing restarts from the first key")
+	} else {
+		assume := map[ssa.Value]bool{}
+		mp := paramNamed(fn, "marker")
+		core.Instrs(fn, func(in ssa.Instruction) {
+			b, ok := in.(*ssa.BinOp)
+			if !ok || mp == nil {
+				return
+			}
+			if (b.X == ssa.Value(mp) && core.IsNilConst(b.Y)) || (b.Y == ssa.Value(mp) && core.IsNilConst(b.X)) {
+				switch b.Op {
+				case token.NEQ:
+					assume[b] = true
+				case token.EQL:
+					assume[b] = false
+				}
+			}
+		})
+		bad := ""
+		for _, nx := range nexts {
+			if core.ReachableTrackingFlags(nil, nx, assume, func(y ssa.Instruction) bool { return y == ssa.Instruction(seek) }) {
+				bad = pos(r, nx)
+				break
+			}
+		}
+		r.Check(len(assume) > 0 && bad == "", "R14.12", key(name, "Seek(marker.Object)"), pos(r, seek), sprintf("every way into the listing loop with a marker passes the seek (%d Next call(s))", len(nexts)),
+			"with a marker given the listing loop (Next at "+bad+") can be entered without Seek(marker.Object): the continued listing restarts from the first key")
+	}
+	nk := resultFieldStores(r, fn, "gofakes3.ListMultipartUploadsResult.NextKeyMarker")
+	nu := resultFieldStores(r, fn, "gofakes3.ListMultipartUploadsResult.NextUploadIDMarker")
+	// (b) the marker stored where an append to Uploads dominates it: the following upload of the same slice
+	appends := resultFieldStores(r, fn, "gofakes3.ListMultipartUploadsResult.Uploads")
+	nb := 0
+	for _, m := range nu {
+		inside := false
+		var app *ssa.Store
+		for _, a := range appends {
+			if core.Dominates(a, m) {
+				inside, app = true, a
+			}
+		}
+		if !inside {
+			continue
+		}
+		nb++
+		// marker value: (*S[i+1]).ID ; listed entry: S[i]
+		ok := false
+		var ia *ssa.IndexAddr
+		v := core.Forward(m.Val)
+		if ld, isLd := v.(*ssa.UnOp); isLd && ld.Op == token.MUL {
+			if fa, isFA := ld.X.(*ssa.FieldAddr); isFA {
+				if ld2, isLd2 := fa.X.(*ssa.UnOp); isLd2 && ld2.Op == token.MUL {
+					ia, _ = ld2.X.(*ssa.IndexAddr)
+				}
+			}
+		}
+		if ia != nil {
+			if add, isAdd := ia.Index.(*ssa.BinOp); isAdd && add.Op == token.ADD {
+				if k, isK := core.ConstInt(add.Y); isK && k == 1 {
+					// the listed entry indexes the same slice with add.X
+					s := r.P.SliceOf(app.Val, core.SliceOpts{Depth: 0})
+					_ = s
+					listed := false
+					core.Instrs(fn, func(in ssa.Instruction) {
+						if ia2, isIA := in.(*ssa.IndexAddr); isIA && ia2 != ia && ia2.X == ia.X && ia2.Index == add.X && core.Dominates(ia2, app) {
+							listed = true
+						}
+					})
+					ok = listed
+				}
+			}
+		}
+		r.Check(ok, "R14.12", key(name, "NextUploadIDMarker = the upload after the last listed", sprintf("#%d", nb)), pos(r, m), "uploads[idx+1] of the slice being listed",
+			"where the page stops inside a key's uploads NextUploadIDMarker is not the upload following the one listed last (uploads[idx+1] of the same slice): the next page repeats or skips an upload")
+	}
+	if nb == 0 {
+		r.Violated("R14.12", key(name, "NextUploadIDMarker inside a key"), p0, "no continuation marker is stored where a page stops inside a key's uploads")
+	}
+	// (c)
+	var final *ssa.Store
+	for _, st := range resultFieldStores(r, fn, "gofakes3.ListMultipartUploadsResult.IsTruncated") {
+		final = st
+	}
+	if final != nil {
+		for i, m := range nk {
+			vals, ok := core.ValuesOnPaths(m, final, final.Val)
+			bad := ""
+			if !ok {
+				bad = "exploration cut off"
+			}
+			for _, v := range vals {
+				if c, isC := v.(*ssa.Const); !isC || c.Value == nil || c.Value.String() != "true" {
+					bad = "can be " + v.String()
+				}
+			}
+			if len(vals) == 0 {
+				bad = "the IsTruncated store is not reached"
+			}
+			r.Check(bad == "", "R14.12", key(name, "markers ⇒ IsTruncated", sprintf("#%d", i+1)), pos(r, m), "IsTruncated is true on every path from the marker store",
+				"after NextKeyMarker is stored the listing can still be reported not truncated (IsTruncated "+bad+"): the client stops and the remaining uploads are never listed")
+		}
+	}
+	// (d)
+	for i, m := range nk {
+		bad := ""
+		for _, m2 := range nk {
+			if core.ReachableTrackingFlags(m, m2, map[ssa.Value]bool{}, nil) {
+				bad = pos(r, m2)
+			}
+		}
+		r.Check(bad == "", "R14.12", key(name, "markers stored once", sprintf("#%d", i+1)), pos(r, m), "no later marker store reachable",
+			"after the continuation markers are stored a later store to them is reachable (at "+bad+"): the page's real stopping point is overwritten and the uploads in between are never listed")
+	}
+	// (e)
+	ne := 0
+	for _, mc := range matches {
+		others := func(y ssa.Instruction) bool {
+			c, ok := y.(*ssa.Call)
+			return ok && c != mc && r.P.CalleeName(c) == "gofakes3.(Prefix).Match"
+		}
+		var sinks []ssa.Instruction
+		for _, m := range nk {
+			sinks = append(sinks, m)
+		}
+		for _, a := range appends {
+			sinks = append(sinks, a)
+		}
+		bad := ""
+		for _, s := range sinks {
+			if core.ReachableTrackingFlags(mc, s, map[ssa.Value]bool{mc: false}, others) {
+				bad = pos(r, s)
+			}
+		}
+		ne++
+		r.Check(bad == "", "R14.12", key(name, "failed match lists nothing", sprintf("#%d", ne)), pos(r, mc), "no entry or marker without a match",
+			"a key that does not match the prefix can still be listed or become the continuation marker (at "+bad+")")
+	}
+	if ne < 2 {
+		r.Unresolved("R14.12: %d prefix matches found in ListMultipartUploads (listing loop and look-ahead expected)", ne)
+	}
 }
